@@ -143,6 +143,33 @@ def seq_case(cls, ops):
     return h
 
 
+def shaped_track_case(cls, N, shape):
+    """A track whose sample array is not 1-D (row vector, 2 x N/2 ...): its own frame count
+    is the leading extent; it enters the block only if that equals the block's count."""
+    def h(I):
+        np = I.np
+        blk = S.new_block(I, cls, N)
+        m = I.mod({"emg": "tdfEMG", "data3d": "tdfData3D"}[cls])
+        data = I.farray("d", shape)
+        t = m.EMGTrack("a", data) if cls == "emg" else m.MarkerTrack("a", data)
+        own = t.nSamples if cls == "emg" else t.nFrames
+        before = list(S.items_of(cls, blk))
+        try:
+            blk.addSignal(t) if cls == "emg" else blk.add_track(t)
+            exc = None
+        except Exception as e:  # noqa: BLE001
+            exc = e
+        after = list(S.items_of(cls, blk))
+        I.observe("r", [type(exc).__name__ if exc else None, len(after), own])
+        if own != N:
+            I.goal("refused")
+            I.prove(f"C16.{cls}.all_tracks_have_block_frame_count", exc is not None and len(after) == len(before), f"track of shape {shape} (frame count {own}) offered to a block of {N}")
+        else:
+            I.goal("accepted")
+            I.prove(f"C16.{cls}.valid_add_accepted", exc is None, f"shape {shape}")
+    return h
+
+
 def _alphabet(cls, tier):
     q = tier == "quick"
     lens = [0, 1, 2] if q else [0, 1, 2, 3]
@@ -171,6 +198,10 @@ def _opname(op):
 
 def instances(tier):
     out = []
+    for N, shape in [(4, (1, 4)), (4, (2, 2)), (4, (4, 1)), (6, (2, 3)), (6, (3, 2)), (1, (1, 1)), (2, (1, 2))]:
+        out.append(Instance(f"emg.shaped.N{N}.{'x'.join(map(str, shape))}", shaped_track_case("emg", N, shape), goals=["accepted" if shape[0] == N else "refused"]))
+    for N, shape in [(3, (1, 3)), (3, (3, 3)), (1, (1, 3)), (9, (3, 3))]:
+        out.append(Instance(f"data3d.shaped.N{N}.{'x'.join(map(str, shape))}", shaped_track_case("data3d", N, shape), goals=["accepted" if shape[0] == N else "refused"]))
     maxlen = 2 if tier == "quick" else 3
     for cls in CLASSES:
         alpha = _alphabet(cls, tier)
